@@ -1,7 +1,7 @@
 #!/usr/bin/env python3
 """Confirm a seeded property-breaking change in a scratch worktree (never in /repo):
 
-  seed_eval.py <dir-with-diff-and-demo> <variant>     e.g.  seed_eval.py /tmp/seed/C03 a
+  seed_eval.py <dir-with-diff-and-demo> <variant>     e.g.  seed_eval.py /root/work/seed/C03 a
 
 1. the diff applies to a clean checkout of /repo's HEAD and the project builds,
 2. the repository's own test suite (92 tests) still passes with it,
@@ -15,7 +15,7 @@ import shutil
 import subprocess
 import sys
 
-WT = "/tmp/wt/eval"
+WT = "/root/work/wt/eval"
 
 
 def sh(cmd, cwd=None, timeout=1800):
